@@ -276,7 +276,7 @@ func genGL(t *rapid.T, hostile bool) glSpec {
 	if rapid.IntRange(0, 3).Draw(t, "tsmap") == 0 {
 		g.Meta.TSMap = &vttTSMap{LocalMs: genMs(t, "local"), MpegTS: rapid.Int64Range(0, 1<<33).Draw(t, "mpegts")}
 	}
-	ids := []string{"s0", "s1", "a", "B", "_x", "s10"}
+	ids := []string{"s1", "s01", "a", "B", "s10", "s010"} // s1/s01 and s10/s010 tie under a "natural" ordering
 	ns := rapid.IntRange(0, 6).Draw(t, "nstyles")
 	css := []string{"::cue { color: red }", "::cue(b) { }", "/* x */ ::cue(.loud) { font-size: 2em }"}
 	for i := 0; i < ns; i++ {
@@ -305,7 +305,7 @@ func genGL(t *rapid.T, hostile bool) glSpec {
 	}
 	nr := rapid.IntRange(0, 3).Draw(t, "nregions")
 	for i := 0; i < nr; i++ {
-		rg := glRegion{ID: []string{"r0", "bottom", "top"}[i], NilInline: p("regionnil", 5), Detached: p("regiondetached", 8), TTML: genAttrs(t, "rttml", 3)}
+		rg := glRegion{ID: []string{"r", "r0", "top"}[i], NilInline: p("regionnil", 5), Detached: p("regiondetached", 8), TTML: genAttrs(t, "rttml", 3)}
 		rg.VTT = vttRegion{Lines: rapid.IntRange(0, 4).Draw(t, "rlines"), Width: rapid.SampledFrom([]string{"", "40%"}).Draw(t, "rwidth"), Scroll: rapid.SampledFrom([]string{"", "up"}).Draw(t, "rscroll")}
 		if ns > 0 && rapid.Bool().Draw(t, "rstyle") {
 			rg.Style = ids[rapid.IntRange(0, ns-1).Draw(t, "rstyleid")]
@@ -379,9 +379,17 @@ func genGL(t *rapid.T, hostile bool) glSpec {
 					r.Color = rapid.SampledFrom([]string{"#ff0000", "#00ffff", "red"}).Draw(t, "color")
 				}
 				if m&16 > 0 {
-					r.Tags = []vttTag{genVTTTag(t)}
-					if rapid.Bool().Draw(t, "tag2") {
-						r.Tags = append(r.Tags, genVTTTag(t))
+					// like real cue text: keep a prefix of the previous run's tag stack, then open new tags
+					if k > 0 && len(ln.Runs[k-1].Tags) > 0 && rapid.Bool().Draw(t, "keeptags") {
+						prev := ln.Runs[k-1].Tags
+						r.Tags = append([]vttTag(nil), prev[:rapid.IntRange(1, len(prev)).Draw(t, "keepn")]...)
+					}
+					if len(r.Tags) == 0 || rapid.Bool().Draw(t, "tag2") {
+						tg := genVTTTag(t)
+						if rapid.Bool().Draw(t, "unsortedclasses") {
+							tg.Classes = []string{"yellow", "bg_blue", "big"}[:rapid.IntRange(2, 3).Draw(t, "nclasses")]
+						}
+						r.Tags = append(r.Tags, tg)
 					}
 				}
 				if ns > 0 && rapid.IntRange(0, 3).Draw(t, "runstyleref") == 0 {
